@@ -559,6 +559,23 @@ theorem referral_glue_wins (cached referral : List Nat) (h : referral ≠ []) :
 
 example : glueFromReferral [11] [12] = ([12], [12]) ∧ glueFromReferral [11] [] = ([], [11]) := by decide
 
+/-- **remaining_antitone.** An entry's remaining lifetime is a function of four instants only
+(stored, ttl, cut, now — no claimed refresh, scope or limiter enters it) and never grows as
+time passes: once it is ≤ 0 (at the latest from the cut on) it stays ≤ 0 at every later
+instant, so no "grace" can bring an entry back after its lease. -/
+theorem remaining_antitone (stored ttl : Int) (cut : Deadline) (t t' : Int) (h : t ≤ t') :
+    remaining stored ttl cut t' ≤ remaining stored ttl cut t ∧
+    (remaining stored ttl cut t ≤ 0 → remaining stored ttl cut t' ≤ 0) := by
+  have key : remaining stored ttl cut t' ≤ remaining stored ttl cut t := by
+    unfold remaining
+    cases cut with
+    | none => simp only; omega
+    | some c => simp only; split <;> split <;> omega
+  exact ⟨key, fun h0 => by omega⟩
+
+example : remaining 0 (86400 * sec) (some (2 * sec)) (2 * sec) = 0 ∧
+    remaining 0 (86400 * sec) (some (2 * sec)) (2 * sec + 100000000) = -100000000 := by decide
+
 /-- **failed_refresh_replaces_nothing.** A background refresh whose answer falls into the
 other partition than the claimed entry — in particular a SERVFAIL coming back for a
 positive or negative answer — writes nothing in its place: the claimed entry is left to
